@@ -5,87 +5,87 @@
 import Spydr.IR.BelowStep
 namespace Spydr.IR
 
-/-- no pointer of any kind crosses the boundary `off` -/
-structure Sep (s : S) (off : OId) : Prop where
-  libNl : ∀ x y, s.libNl x = some y → (x < off ↔ y < off)
-  defLib : ∀ x y, s.defLib x = some y → (x < off ↔ y < off)
-  portDef : ∀ x y, s.portDef x = some y → (x < off ↔ y < off)
-  cableDef : ∀ x y, s.cableDef x = some y → (x < off ↔ y < off)
-  instParent : ∀ x y, s.instParent x = some y → (x < off ↔ y < off)
-  pinPort : ∀ x y, s.pinPort x = some y → (x < off ↔ y < off)
-  wireCable : ∀ x y, s.wireCable x = some y → (x < off ↔ y < off)
-  pinWire : ∀ x y, s.pinWire x = some y → (x < off ↔ y < off)
-  opWire : ∀ i q w, s.opWire i q = some w → (i < off ↔ w < off) ∧ (q < off ↔ w < off)
-  instRef : ∀ x y, s.instRef x = some y → (x < off ↔ y < off)
-  top : ∀ x y, s.top x = some y → (x < off ↔ y < off)
-  libs : ∀ x y, y ∈ s.libs x → (x < off ↔ y < off)
-  defs : ∀ x y, y ∈ s.defs x → (x < off ↔ y < off)
-  ports : ∀ x y, y ∈ s.ports x → (x < off ↔ y < off)
-  cables : ∀ x y, y ∈ s.cables x → (x < off ↔ y < off)
-  children : ∀ x y, y ∈ s.children x → (x < off ↔ y < off)
-  pins : ∀ x y, y ∈ s.pins x → (x < off ↔ y < off)
-  wires : ∀ x y, y ∈ s.wires x → (x < off ↔ y < off)
-  instPins : ∀ x y, y ∈ s.instPins x → (x < off ↔ y < off)
-  wpI : ∀ w q, PinRef.inner q ∈ s.wirePins w → (w < off ↔ q < off)
-  wpO : ∀ w i q, PinRef.outer i q ∈ s.wirePins w → (w < off ↔ i < off) ∧ (w < off ↔ q < off)
-  refs : ∀ d i, s.refs d i = true → (d < off ↔ i < off)
+/-- `R` is a region of the id space (for every class); no pointer of any kind crosses its boundary -/
+structure Sep (s : S) (R : OId → Prop) : Prop where
+  libNl : ∀ x y, s.libNl x = some y → (R x ↔ R y)
+  defLib : ∀ x y, s.defLib x = some y → (R x ↔ R y)
+  portDef : ∀ x y, s.portDef x = some y → (R x ↔ R y)
+  cableDef : ∀ x y, s.cableDef x = some y → (R x ↔ R y)
+  instParent : ∀ x y, s.instParent x = some y → (R x ↔ R y)
+  pinPort : ∀ x y, s.pinPort x = some y → (R x ↔ R y)
+  wireCable : ∀ x y, s.wireCable x = some y → (R x ↔ R y)
+  pinWire : ∀ x y, s.pinWire x = some y → (R x ↔ R y)
+  opWire : ∀ i q w, s.opWire i q = some w → (R i ↔ R w) ∧ (R q ↔ R w)
+  instRef : ∀ x y, s.instRef x = some y → (R x ↔ R y)
+  top : ∀ x y, s.top x = some y → (R x ↔ R y)
+  libs : ∀ x y, y ∈ s.libs x → (R x ↔ R y)
+  defs : ∀ x y, y ∈ s.defs x → (R x ↔ R y)
+  ports : ∀ x y, y ∈ s.ports x → (R x ↔ R y)
+  cables : ∀ x y, y ∈ s.cables x → (R x ↔ R y)
+  children : ∀ x y, y ∈ s.children x → (R x ↔ R y)
+  pins : ∀ x y, y ∈ s.pins x → (R x ↔ R y)
+  wires : ∀ x y, y ∈ s.wires x → (R x ↔ R y)
+  instPins : ∀ x y, y ∈ s.instPins x → (R x ↔ R y)
+  wpI : ∀ w q, PinRef.inner q ∈ s.wirePins w → (R w ↔ R q)
+  wpO : ∀ w i q, PinRef.outer i q ∈ s.wirePins w → (R w ↔ R i) ∧ (R w ↔ R q)
+  refs : ∀ d i, s.refs d i = true → (R d ↔ R i)
 
-def PinRef.above (off : OId) : PinRef → Prop
-  | .inner q => off ≤ q
-  | .outer i q => off ≤ i ∧ off ≤ q
+def PinRef.inR (R : OId → Prop) : PinRef → Prop
+  | .inner q => R q
+  | .outer i q => R i ∧ R q
 
-def optAbove (off : OId) : Option OId → Prop
+def optIn (R : OId → Prop) : Option OId → Prop
   | none => True
-  | some x => off ≤ x
+  | some x => R x
 
-/-- every object an operation mentions lies in the high region -/
-def Op.above (off : OId) : Op → Prop
-  | .addLibrary n l _ _ => off ≤ n ∧ off ≤ l
-  | .removeLibrary n l => off ≤ n ∧ off ≤ l
-  | .removeLibrariesFrom n ls => off ≤ n ∧ ∀ x ∈ ls, off ≤ x
-  | .setLibraries n ls => off ≤ n ∧ ∀ x ∈ ls, off ≤ x
-  | .addDefinition l d _ _ => off ≤ l ∧ off ≤ d
-  | .removeDefinition l d => off ≤ l ∧ off ≤ d
-  | .removeDefinitionsFrom l ds => off ≤ l ∧ ∀ x ∈ ds, off ≤ x
-  | .setDefinitions l ds => off ≤ l ∧ ∀ x ∈ ds, off ≤ x
-  | .addPort d p _ _ => off ≤ d ∧ off ≤ p
-  | .removePort d p => off ≤ d ∧ off ≤ p
-  | .removePortsFrom d ps => off ≤ d ∧ ∀ x ∈ ps, off ≤ x
-  | .setPorts d ps => off ≤ d ∧ ∀ x ∈ ps, off ≤ x
-  | .addCable d c _ _ => off ≤ d ∧ off ≤ c
-  | .removeCable d c => off ≤ d ∧ off ≤ c
-  | .removeCablesFrom d cs => off ≤ d ∧ ∀ x ∈ cs, off ≤ x
-  | .setCables d cs => off ≤ d ∧ ∀ x ∈ cs, off ≤ x
-  | .addChild d i _ _ => off ≤ d ∧ off ≤ i
-  | .removeChild d i => off ≤ d ∧ off ≤ i
-  | .removeChildrenFrom d is => off ≤ d ∧ ∀ x ∈ is, off ≤ x
-  | .setChildren d is => off ≤ d ∧ ∀ x ∈ is, off ≤ x
-  | .createChild d i ref _ => off ≤ d ∧ off ≤ i ∧ optAbove off ref
-  | .addPin p q _ => off ≤ p ∧ off ≤ q
-  | .removePin p q => off ≤ p ∧ off ≤ q
-  | .removePinsFrom p qs => off ≤ p ∧ ∀ x ∈ qs, off ≤ x
-  | .setPins p qs => off ≤ p ∧ ∀ x ∈ qs, off ≤ x
-  | .addWire c w _ => off ≤ c ∧ off ≤ w
-  | .removeWire c w => off ≤ c ∧ off ≤ w
-  | .removeWiresFrom c ws => off ≤ c ∧ ∀ x ∈ ws, off ≤ x
-  | .setWires c ws => off ≤ c ∧ ∀ x ∈ ws, off ≤ x
-  | .connectInner w q _ => off ≤ w ∧ off ≤ q
-  | .connectOuter w i q _ => off ≤ w ∧ off ≤ i ∧ off ≤ q
-  | .disconnect w r => off ≤ w ∧ r.above off
-  | .disconnectFrom w rs => off ≤ w ∧ ∀ r ∈ rs, r.above off
-  | .setWirePins w rs => off ≤ w ∧ ∀ r ∈ rs, r.above off
-  | .setRef i d => off ≤ i ∧ optAbove off d
-  | .setTop n i => off ≤ n ∧ optAbove off i
-  | .setTopDef n d t => off ≤ n ∧ off ≤ d ∧ off ≤ t
+/-- every object an operation mentions lies in the region -/
+def Op.inside (R : OId → Prop) : Op → Prop
+  | .addLibrary n l _ _ => R n ∧ R l
+  | .removeLibrary n l => R n ∧ R l
+  | .removeLibrariesFrom n ls => R n ∧ ∀ x ∈ ls, R x
+  | .setLibraries n ls => R n ∧ ∀ x ∈ ls, R x
+  | .addDefinition l d _ _ => R l ∧ R d
+  | .removeDefinition l d => R l ∧ R d
+  | .removeDefinitionsFrom l ds => R l ∧ ∀ x ∈ ds, R x
+  | .setDefinitions l ds => R l ∧ ∀ x ∈ ds, R x
+  | .addPort d p _ _ => R d ∧ R p
+  | .removePort d p => R d ∧ R p
+  | .removePortsFrom d ps => R d ∧ ∀ x ∈ ps, R x
+  | .setPorts d ps => R d ∧ ∀ x ∈ ps, R x
+  | .addCable d c _ _ => R d ∧ R c
+  | .removeCable d c => R d ∧ R c
+  | .removeCablesFrom d cs => R d ∧ ∀ x ∈ cs, R x
+  | .setCables d cs => R d ∧ ∀ x ∈ cs, R x
+  | .addChild d i _ _ => R d ∧ R i
+  | .removeChild d i => R d ∧ R i
+  | .removeChildrenFrom d is => R d ∧ ∀ x ∈ is, R x
+  | .setChildren d is => R d ∧ ∀ x ∈ is, R x
+  | .createChild d i ref _ => R d ∧ R i ∧ optIn R ref
+  | .addPin p q _ => R p ∧ R q
+  | .removePin p q => R p ∧ R q
+  | .removePinsFrom p qs => R p ∧ ∀ x ∈ qs, R x
+  | .setPins p qs => R p ∧ ∀ x ∈ qs, R x
+  | .addWire c w _ => R c ∧ R w
+  | .removeWire c w => R c ∧ R w
+  | .removeWiresFrom c ws => R c ∧ ∀ x ∈ ws, R x
+  | .setWires c ws => R c ∧ ∀ x ∈ ws, R x
+  | .connectInner w q _ => R w ∧ R q
+  | .connectOuter w i q _ => R w ∧ R i ∧ R q
+  | .disconnect w r => R w ∧ r.inR R
+  | .disconnectFrom w rs => R w ∧ ∀ r ∈ rs, r.inR R
+  | .setWirePins w rs => R w ∧ ∀ r ∈ rs, r.inR R
+  | .setRef i d => R i ∧ optIn R d
+  | .setTop n i => R n ∧ optIn R i
+  | .setTopDef n d t => R n ∧ R d ∧ R t
 
-/-- the part of the heap that belongs to the low region -/
-structure LowEq (a b : S) (off : OId) : Prop where
-  f1 : ∀ x, x < off → a.libs x = b.libs x ∧ a.libNl x = b.libNl x ∧ a.defs x = b.defs x ∧ a.defLib x = b.defLib x ∧
+/-- the two heaps agree on everything outside the region -/
+structure OutEq (a b : S) (R : OId → Prop) : Prop where
+  f1 : ∀ x, ¬ R x → a.libs x = b.libs x ∧ a.libNl x = b.libNl x ∧ a.defs x = b.defs x ∧ a.defLib x = b.defLib x ∧
     a.ports x = b.ports x ∧ a.portDef x = b.portDef x ∧ a.cables x = b.cables x ∧ a.cableDef x = b.cableDef x ∧
     a.children x = b.children x ∧ a.instParent x = b.instParent x ∧ a.pins x = b.pins x ∧ a.pinPort x = b.pinPort x ∧
     a.wires x = b.wires x ∧ a.wireCable x = b.wireCable x ∧ a.wirePins x = b.wirePins x ∧ a.pinWire x = b.pinWire x ∧
     a.instRef x = b.instRef x ∧ a.instPins x = b.instPins x ∧ a.top x = b.top x
-  f2 : ∀ i q, i < off → q < off → a.opWire i q = b.opWire i q
-  f3 : ∀ d i, d < off → i < off → a.refs d i = b.refs d i
+  f2 : ∀ i q, ¬ R i → ¬ R q → a.opWire i q = b.opWire i q
+  f3 : ∀ d i, ¬ R d → ¬ R i → a.refs d i = b.refs d i
 
 end Spydr.IR
